@@ -24,6 +24,8 @@ package syntax
 //@ axiom forall v string :: pure0("syntax.InterceptorFunc", funcval("syntax.Interceptors.NewSegment$1"), v)
 //@ opaque pred segRegexp(s *Segment) = (s.Type == 2 ==> s.expr != nil && (selfContained(s.rule) ==> s.expr.gtail == s.Suffix))
 //@ pred segOK(s *Segment) = segShape(s) && segMatcher(s) && segRegexp(s)
+// Segments are immutable once built: whatever held of an existing segment still holds
+//@ pred segsKept() = forall s *Segment :: old(allocated(s)) && old(segOK(s)) ==> segOK(s)
 //
 // icOK: registered interceptor functions are non-nil (A4 at the API boundary: WithInterceptor / RegisterInterceptor)
 //@ pred icOK(i *Interceptors) = i != nil && i.funcs != nil && (forall k string :: in(k, i.funcs) ==> i.funcs[k] != nil)
@@ -104,6 +106,7 @@ package syntax
 //@   requires [C05] shape: indexOf(val, "{") <= 0 || indexOf(val, "}") == -1
 //@   nopanic
 //@   modifies alloc
+//@   ensures [C05,C03] immutable: segsKept()
 //@   ensures [C05,C01] ok-shape: result1 == nil ==> segShape(result0) && result0.Value == val && fresh(result0)
 //@   ensures [C05,C01] ok-matcher: result1 == nil ==> segMatcher(result0)
 //@   ensures [C05,C01] ok-regexp: result1 == nil ==> segRegexp(result0)
@@ -119,6 +122,7 @@ package syntax
 //@ fn Segment.Split
 //@   requires segOK(seg) && icOK(i) && 0 <= pos && pos <= len(seg.Value)
 //@   requires [C05] cut: shapeOK(seg.Value[:pos]) && shapeOK(seg.Value[pos:])
+//@   ensures [C05,C03] immutable: segsKept()
 //@   ensures [C05] two: result1 == nil ==> len(result0) == 2 && result0[0].Value == seg.Value[:pos] && result0[1].Value == seg.Value[pos:]
 //@   ensures [C05] first-ok: result1 == nil ==> segShape(result0[0]) && segMatcher(result0[0]) && segRegexp(result0[0])
 //@   ensures [C05] second-ok: result1 == nil ==> segOK(result0[1])
@@ -139,6 +143,8 @@ package syntax
 //@   requires icOK(i)
 //@   ensures [C05] ok: result1 == nil ==> len(result0) >= 1 && (forall k int :: 0 <= k && k < len(result0) ==> segOK(result0[k]) && len(result0[k].Value) > 0)
 //@   ensures [C05] empty: str == "" ==> result1 != nil
+//@   ensures [C05,C03] immutable: segsKept()
+//@   inv 1 [C05,C03] immutable: segsKept()
 //@   inv 1 [C05] bound: -1 <= rangeindex && rangeindex < len(ss)
 //@   inv 1 [C05] segs: len(segs) == rangeindex + 1 && (forall k int :: 0 <= k && k < len(segs) ==> segOK(segs[k]) && allocated(segs[k]) && len(segs[k].Value) > 0)
 //@   inv 1 [C05] names: names != nil && (forall x string :: names[x] == 0 || names[x] == 1)
